@@ -228,5 +228,6 @@ pub fn spec_c09() -> PropSpec {
         nt_rule: "",
         engine: "seq",
         runner: None,
+        decode: None,
     }
 }
